@@ -303,7 +303,7 @@ func genH2(rng *rand.Rand) []spec {
 				{T: t, A: []credKind{kExact}, PA: []credKind{kAbsent}, Method: "GET"}}}})
 		}
 	}
-	n := run.N(250, 4000)
+	n := run.N(500, 15000)
 	for i := 0; i < n; i++ {
 		s := &h2Spec{Mode: pick(rng, []string{"upgrade", "upgrade", "prior"})}
 		k := 2 + rng.Intn(3)
